@@ -52,6 +52,8 @@ def valid_images(r):
         out.append(build_pe(tuple(secs)))
     out.append(build_pe(((0x200, 0x200),), e_lfanew=0x80))
     out.append(build_pe(((0x400, 0x200), (0x200, 0x200))))  # sections out of order
+    out.append(build_pe(((0x200, 0x400), (0, 0))))  # highest-address section has no raw data (.bss style)
+    out.append(build_pe(((0x600, 0x200), (0x200, 0x400), (0, 0))))
     out.append(build_pe(((0x200, 0x200),), pe32plus=True))
     # "tiny PE" style headers declaring fewer than the usual 16 data directories
     for nd in (0, 1, 4, 5, 15):
